@@ -1442,17 +1442,17 @@ def load(
     file_skip_types_raw = cast(
         Sequence[str] | None, root.attrs.get("_autoserialize_skip_types", [])
     )
-    file_skip_types = (
-        tuple(
-            # Import each type by fully-qualified name from string
-            __import__(t.rpartition(".")[0], fromlist=[t.rpartition(".")[2]]).__dict__[  # type: ignore[index]
-                t.rpartition(".")[2]
-            ]
-            for t in file_skip_types_raw
-        )
-        if file_skip_types_raw
-        else tuple()
-    )
+    resolved_skip_types = []
+    for t in file_skip_types_raw or []:
+        # Import each type by fully-qualified name from string
+        mod_name, _, type_name = t.rpartition(".")
+        try:
+            resolved_skip_types.append(__import__(mod_name, fromlist=[type_name]).__dict__[type_name])
+        except (ImportError, KeyError, ValueError):
+            # e.g. NoneType or a nested class cannot be imported under this name. Attributes of
+            # that type were already left out at save time, so there is nothing left to filter.
+            continue
+    file_skip_types = tuple(resolved_skip_types)
 
     # Merge user-specified and file-stored skip lists/types (avoid duplicates)
     skip_names = user_skip_names | file_skip_names
